@@ -221,23 +221,33 @@ def r_transl(ctx):
         ctx.ob("R-TRANSL", "expression_to_sparse_matrices::pair", False, "pair key not unpacked into two points", loc(sparse, sparse))
         return
     p1, p2 = [e.id for e in un[0].targets[0].elts]
-    paths = _sparse_paths(pbody, p1, p2, cs, gi, gj, gv)
-    want = {
-        ("mirrored", "ge"): ("c1", "c2", "(w+ws)/2"),
-        ("mirrored", "lt"): None,
-        ("mirrored-zero", "ge"): ("c1", "c2", "w/2"),
-        ("mirrored-zero", "lt"): None,
-        ("single", "ge"): ("max", "min", "w/2"),
-        ("single", "lt"): ("max", "min", "w/2"),
-    }
-    for state, exp in want.items():
-        got = paths.get(state, "unreached")
-        okp = got == exp or (exp is not None and got is not None and got != "unreached" and _same_sparse(got, exp, state))
-        ctx.ob("R-TRANSL", "expression_to_sparse_matrices::pair %s %s" % state, okp,
-               ("emits (row, col, value) = %s" % (exp,) if exp else "emits nothing (handled when the mirrored key is visited)") if okp else
-               "in state %s the translator emits %s, expected %s (lower-triangular entry, off-diagonal weights halved, mirrored keys merged once)" % (state, got, exp),
-               loc(sparse, pbody[0]))
-    ctx.sample({"rule": "R-TRANSL", "sparse pair branch": {"%s/%s" % k: str(v) for k, v in paths.items()}})
+    w, ws = Rat.sym("w"), Rat.sym("ws")
+    cases = []
+    for (c1, c2) in ((2, 1), (1, 2)):
+        for mirrored in ("absent", "nonzero", "zero"):
+            if mirrored == "absent":
+                exp = (2, 1, w / Rat(2))
+            elif c1 > c2:
+                exp = (2, 1, (w + (ws if mirrored == "nonzero" else Rat(0))) / Rat(2))
+            else:
+                exp = None          # emitted when the mirrored key itself is visited
+            cases.append(((c1, c2), mirrored, exp))
+    cases.append(((1, 1), "self", (1, 1, w)))
+    shown = {}
+    for (c1, c2), mirrored, exp in cases:
+        label = "first index %s second, mirrored key %s" % (">" if c1 > c2 else ("<" if c1 < c2 else "="), mirrored)
+        try:
+            got = _sparse_run(pbody, p1, p2, cs, gi, gj, gv, c1, c2, mirrored)
+            okp = (got is None and exp is None) or (got is not None and exp is not None and not isinstance(got, str)
+                                                     and got[0] == exp[0] and got[1] == exp[1] and isinstance(got[2], Rat) and got[2].equals(exp[2]))
+            msg = ("emits (row, col, value) = (%s, %s, %s)" % exp if exp else "emits nothing (handled when the mirrored key is visited)") if okp else \
+                "emits %s, expected %s (one lower-triangular entry per unordered pair, off-diagonal weights halved, mirrored keys merged once)" % (
+                    got if got is None or isinstance(got, str) else "(%s, %s, %s)" % got, exp if exp is None else "(%s, %s, %s)" % exp)
+        except AnalysisError as e:
+            raise AnalysisError("sparse translator: %s" % e)
+        shown[label] = str(got)
+        ctx.ob("R-TRANSL", "expression_to_sparse_matrices::pair, %s" % label, okp, msg, loc(sparse, pbody[0]))
+    ctx.sample({"rule": "R-TRANSL", "sparse pair branch": shown})
     # the MOSEK back-end uses the sparse translator only
     mb = [b for b in common.backends(repo) if "mosek" in b.name.lower()][0]
     used = {call_name(c2) for f in mb.methods.values() for c2 in ast.walk(f) if isinstance(c2, ast.Call) and (call_name(c2) or "").startswith("expression_to_")}
@@ -447,6 +457,15 @@ def r_leafreg(ctx):
             else:
                 msg = "loop body is not a single assignment of the leaf value"
         ctx.ob("R-LEAFREG", "PEP.%s::%s" % (fn.name, reg), ok, msg, loc(fn, loops[0] if loops else fn))
+    reass = []
+    for pn in params_of(fn)[1:3]:
+        for n0 in ast.walk(fn):
+            if isinstance(n0, ast.Name) and n0.id == pn and isinstance(n0.ctx, ast.Store):
+                reass.append(pn)
+    ctx.ob("R-LEAFREG", "PEP.%s::solver output used as given" % fn.name, not reass,
+           "the Gram matrix and the function values are factorised / read as the solver returned them" if not reass else
+           "`%s` is replaced inside the function before the leaves are evaluated (e.g. by an eigenvalue-thresholded matrix): the instance no longer "
+           "reproduces the Gram matrix that is published and constraints need not hold at it" % reass[0], loc(fn, fn))
     # points_values: columns of the triangular factor of sqrt(eig) * eigvec^T
     qr = [s for s in flow.stmts_of(fn, ast.Assign) if isinstance(s.value, ast.Call) and call_name(s.value) == "qr"]
     okq = len(qr) == 1 and any(k.arg == "mode" and is_const(k.value, "r") for k in qr[0].value.keywords)
@@ -547,7 +566,13 @@ def r_evalshape(ctx):
     # Constraint.eval evaluates its own expression; PSDMatrix.eval every entry in place
     fn = repo.method("Constraint", "eval")
     st = [s for s in flow.stmts_of(fn, ast.Assign) if any(dotted(t) == "self._value" for t in s.targets)]
-    ok = len(st) == 1 and src(st[0].value) == "self.expression.eval()"
+    ok = len(st) == 1
+    if ok:
+        v = st[0].value
+        if isinstance(v, ast.Name):
+            d = [s2 for s2 in flow.stmts_of(fn, ast.Assign) if dotted(s2.targets[0]) == v.id]
+            v = d[0].value if len(d) == 1 else v
+        ok = src(v) == "self.expression.eval()"
     ctx.ob("R-EVALSHAPE", "Constraint.eval::value of its expression", ok, "the value of a constraint is the value of its expression" if ok else "value is `%s`" % (src(st[0].value) if st else "?"), loc(fn, fn))
     fn = repo.method("PSDMatrix", "eval")
     st = [s for s in flow.stmts_of(fn, ast.Assign) if any(dotted(t) == "self._value" for t in s.targets)]
@@ -574,3 +599,171 @@ def _entrywise_eval(v):
     g = inner.generators[0]
     return dotted(g.iter) == outer.target.id and isinstance(g.target, ast.Name) and isinstance(inner.elt, ast.Call) \
         and call_name(inner.elt) == "eval" and dotted(inner.elt.func.value) == g.target.id and not inner.elt.args
+
+
+class _Skip(Exception):
+    pass
+
+
+def _sparse_run(body, p1, p2, cs, gi, gj, gv, c1, c2, mirrored):
+    """Abstract run of the pair branch with concrete indices c1, c2 and symbolic weights; returns the appended (row, col, value), None, or a text."""
+    owner = cs.owner
+    w, ws = Rat.sym("w"), Rat.sym("ws")
+    if mirrored == "self":
+        ws_val, present = w, True
+    elif mirrored == "nonzero":
+        ws_val, present = ws, True
+    elif mirrored == "zero":
+        ws_val, present = Rat(0), True
+    else:
+        ws_val, present = None, False
+    env = {cs.weight: w}
+    out = {"i": [], "j": [], "v": []}
+
+    def is_dict(e):
+        return dotted(e) == owner + ".decomposition_dict"
+
+    def key_of(e):
+        """'mirror' for (p2, p1), 'own' for (p1, p2) / the loop key"""
+        if isinstance(e, ast.Tuple) and len(e.elts) == 2:
+            names = [dotted(x) for x in e.elts]
+            if names == [p2, p1]:
+                return "mirror"
+            if names == [p1, p2]:
+                return "own"
+        if dotted(e) == cs.key:
+            return "own"
+        return None
+
+    def ev(e):
+        if isinstance(e, ast.Constant) and isinstance(e.value, (int, float)) and not isinstance(e.value, bool):
+            return e.value if isinstance(e.value, int) else Rat(Fraction(repr(e.value)))
+        if isinstance(e, ast.Name):
+            if e.id in env:
+                return env[e.id]
+            raise AnalysisError("unbound name %s" % e.id)
+        if isinstance(e, ast.Attribute) and e.attr == "counter" and isinstance(e.value, ast.Name) and e.value.id in (p1, p2):
+            return c1 if e.value.id == p1 else c2
+        if isinstance(e, ast.Tuple):
+            return tuple(ev(x) for x in e.elts)
+        if isinstance(e, ast.Call) and call_name(e) in ("max", "min") and isinstance(e.func, ast.Name):
+            vals = [ev(a) for a in e.args]
+            if all(isinstance(v, int) for v in vals):
+                return max(vals) if e.func.id == "max" else min(vals)
+        if isinstance(e, ast.Subscript) and is_dict(e.value):
+            k = key_of(e.slice)
+            if k == "mirror":
+                if not present:
+                    raise AnalysisError("lookup of an absent mirrored key (KeyError at run time)")
+                return ws_val
+            if k == "own":
+                return w
+        if isinstance(e, ast.Call) and call_name(e) == "get" and isinstance(e.func, ast.Attribute) and is_dict(e.func.value) and e.args:
+            k = key_of(e.args[0])
+            default = ev(e.args[1]) if len(e.args) > 1 else None
+            if k == "mirror":
+                return ws_val if present else default
+            if k == "own":
+                return w
+        if isinstance(e, ast.IfExp):
+            return ev(e.body) if truth(e.test) else ev(e.orelse)
+        if isinstance(e, ast.BinOp):
+            a, b = ev(e.left), ev(e.right)
+            if isinstance(a, int) and isinstance(b, int) and isinstance(e.op, (ast.Add, ast.Sub, ast.Mult)):
+                return {ast.Add: a + b, ast.Sub: a - b, ast.Mult: a * b}[type(e.op)]
+            ra = Rat(a) if isinstance(a, int) else a
+            rb = Rat(b) if isinstance(b, int) else b
+            if isinstance(ra, Rat) and isinstance(rb, Rat):
+                if isinstance(e.op, ast.Add):
+                    return ra + rb
+                if isinstance(e.op, ast.Sub):
+                    return ra - rb
+                if isinstance(e.op, ast.Mult):
+                    return ra * rb
+                if isinstance(e.op, ast.Div):
+                    return ra / rb
+        if isinstance(e, ast.UnaryOp) and isinstance(e.op, ast.USub):
+            v = ev(e.operand)
+            return -v
+        raise AnalysisError("expression `%s` outside the analysed fragment" % src(e))
+
+    def truth(t):
+        if isinstance(t, ast.BoolOp):
+            vals = [truth(v) for v in t.values]
+            return all(vals) if isinstance(t.op, ast.And) else any(vals)
+        if isinstance(t, ast.UnaryOp) and isinstance(t.op, ast.Not):
+            return not truth(t.operand)
+        if isinstance(t, ast.Compare) and len(t.ops) == 1:
+            op = t.ops[0]
+            if isinstance(op, (ast.In, ast.NotIn)):
+                c = t.comparators[0]
+                base = c.func.value if isinstance(c, ast.Call) and call_name(c) == "keys" else c
+                k = key_of(t.left)
+                if is_dict(base) and k is not None:
+                    r = present if k == "mirror" else True
+                    return r if isinstance(op, ast.In) else not r
+            a, b = ev(t.left), ev(t.comparators[0])
+            if isinstance(a, int) and isinstance(b, int):
+                return {ast.Eq: a == b, ast.NotEq: a != b, ast.Lt: a < b, ast.LtE: a <= b, ast.Gt: a > b, ast.GtE: a >= b}[type(op)]
+            if isinstance(a, (Rat, int)) and isinstance(b, (Rat, int)) and isinstance(op, (ast.Eq, ast.NotEq)):
+                ra = Rat(a) if isinstance(a, int) else a
+                rb = Rat(b) if isinstance(b, int) else b
+                z = ra - rb
+                eq = z.is_zero()          # a symbolic weight is generic: non-zero
+                return eq if isinstance(op, ast.Eq) else not eq
+            if (a is None or b is None) and isinstance(op, (ast.Is, ast.IsNot, ast.Eq, ast.NotEq)):
+                same = a is None and b is None
+                return same if isinstance(op, (ast.Is, ast.Eq)) else not same
+        if isinstance(t, ast.Constant) and t.value is None:
+            return False
+        v = ev(t)
+        if isinstance(v, Rat):
+            return not v.is_zero()
+        if v is None:
+            return False
+        raise AnalysisError("test `%s` outside the analysed fragment" % src(t))
+
+    def run(stmts):
+        for st in stmts:
+            if isinstance(st, ast.If):
+                run(st.body if truth(st.test) else st.orelse)
+            elif isinstance(st, ast.Assign) and len(st.targets) == 1:
+                tg = st.targets[0]
+                if isinstance(tg, ast.Tuple) and dotted(st.value) == cs.key:
+                    continue          # point1, point2 = key
+                v = ev(st.value)
+                if isinstance(tg, ast.Name):
+                    env[tg.id] = v
+                elif isinstance(tg, ast.Tuple) and isinstance(v, tuple) and len(v) == len(tg.elts):
+                    for t2, v2 in zip(tg.elts, v):
+                        env[t2.id] = v2
+                else:
+                    raise AnalysisError("assignment `%s`" % norm_stmt(st)[:50])
+            elif isinstance(st, (ast.Assert, ast.Pass)):
+                continue
+            elif isinstance(st, ast.Continue):
+                raise _Skip()
+            elif isinstance(st, ast.Expr) and isinstance(st.value, ast.Call) and call_name(st.value) == "append":
+                tgt = dotted(st.value.func.value)
+                v = ev(st.value.args[0])
+                if tgt == gv:
+                    out["v"].append(Rat(v) if isinstance(v, int) else v)
+                elif tgt == gi:
+                    out["i"].append(v)
+                elif tgt == gj:
+                    out["j"].append(v)
+                else:
+                    raise AnalysisError("append to %s in the pair branch" % tgt)
+            else:
+                raise AnalysisError("statement `%s` outside the analysed fragment" % norm_stmt(st)[:60])
+
+    try:
+        run(body)
+    except _Skip:
+        pass
+    n = {len(out["i"]), len(out["j"]), len(out["v"])}
+    if n == {0}:
+        return None
+    if n == {1}:
+        return (out["i"][0], out["j"][0], out["v"][0])
+    return "unbalanced appends %s" % {k: len(v) for k, v in out.items()}
